@@ -3,23 +3,26 @@ from props_common import *
 PROP = dict(
     title="Sparse Merkle state persists completely in its node storage",
     family="smt", harness="smt", run_vo="Run/Smt.vo",
-    theorems=["C13_load_empty", "C13_load_missing"],
-    open_statements=[],
+    theorems=["C13_inv_preserved", "C13_reload_same", "C13_reload_transparent", "C13_load_empty", "C13_load_missing"],
+    open_statements=["C13_nodes_from_set_full_statement: the node list of nodes_from_set, loaded at the returned root, is a persisted tree of the set's map (not proved; OFromNodes histories in the correspondence run and the harness oracle)"],
     translators=[],
     quick_shards=8,
     trusted_base=[SHA_NOTE,
                   "hand-written L1 model Merkle/SparseModel.v (hash-addressed node store, StorageNode child lookup, path_set, update/delete with their storage "
                   "inserts and removes, load), tied to the code by the correspondence run (roots, proofs, error kinds and final storage size)",
                   "the storage back-end is modelled as a finite map (StorageMap = HashMap); host storage errors are not modelled"],
-    assumptions=["digest equality is decidable (premise of the theorems)"],
+    assumptions=["C13_inv_preserved, C13_reload_same, C13_reload_transparent: the premises bundled in smt_iface incl. collision-freeness hash_ok of the hash functions (explicit premise; satisfiable: Merkle/SparseInst.v lb_iface)",
+                 "C13_load_empty, C13_load_missing: digest equality is decidable"],
     rule=("histories (<= 60 ops, adversarial key pools as C12) with reloads (into_storage + MerkleTree::load at the current root) sprinkled in, trees started from "
           "from_set and from the node list of nodes_from_set, load at the empty root, load at absent roots, storage with the root node / an inner node removed or a "
           "primitive with an invalid prefix (expected: LoadError / ChildNotFound / DeserializeError, never a wrong answer); model compared on roots, proofs, error kinds, "
           "storage size; oracle: the reload placed at EVERY index of every history and the continued tree compared (roots after every op, final proofs) with the "
           "never-reloaded tree; distinct = distinct (length, final result); non-trivial = at least 2 distinct keys and 3 operations"),
-    level_text=("Machine-checked proof (Coq) about the model of MerkleTree::load (empty root gives the empty tree for any storage; a missing non-empty root gives LoadError) "
-                "and of the storage invariant statements listed under theorems; the statements still open are listed under open_statements; the model is tied to the Rust "
-                "code by a differential run with reloads and storage tampering on every check"),
+    level_text=("Machine-checked proof (Coq) on the model of the Rust code that the storage invariant 'every node of the tree is in the node store under its digest with its "
+                "primitive' is preserved by every insert, delete and reload of every history (in particular removing stale nodes never removes a reachable node: distinct "
+                "positions have distinct digests under collision-freeness), that loading at the current root returns the identical tree (so a reload at ANY point of a history "
+                "changes nothing: C13_reload_transparent), that loading at the empty root gives the empty tree and loading at a missing root gives LoadError; the model is tied "
+                "to the Rust code by a differential run with reloads and storage tampering on every check"),
     level_note=("Trusted: Coq kernel; hand-written L1 model tied by correspondence testing (testing, not proof); harness. The reload-at-every-index comparison on the real "
                 "code is testing and is reported as such."),
     technique="Coq proof on the L1 storage model + differential model/impl run with reload at every history index",
